@@ -80,6 +80,12 @@ def gain_case(rec, seedt, backend, cuda):
         x -= np.mean(x)
     else:
         x = gen.record(rng, N, rk)
+    if rng.random() < 0.15:
+        # a dropout: a run of exact zeros long enough to hold whole segments of the short-L bins
+        g0 = int(rng.integers(0, max(1, N // 2)))
+        x = x.copy()
+        x[g0:g0 + int(N * rng.uniform(0.1, 0.4))] = 0.0
+        rec.count("gain_cases_with_a_zero_run")
     # the record's physical unit is arbitrary: the same samples expressed in a unit 2^k times
     # larger or smaller (an exact rescaling) must give the same transfer function and coherence
     amp_exp = int(rng.choice([0, 0, 0, -40, -100, -200, 40, 130]))
